@@ -4,6 +4,7 @@ import tomllib
 from cfg import cfg_of
 from flow import Taint, Tracker, callee_matches, field_reads, op_local, prep, backward
 from rules import CallGuard, CallSink, CmpGuard, RetSink, AggSink, BlockSink
+from rules import is_forward
 from rules import PL
 from props.C04 import call_results, NRS, agg_field_operands
 from props.C01 import RS, WITHCFG
@@ -106,7 +107,7 @@ def run(R):
         for b in sc.blocks:
             if b["cleanup"] or b["id"] not in live or b["id"] in somes:
                 continue
-            if any(st["d"] == [0] for st in b["stmts"]) or (b["term"]["k"] == "call" and b["term"]["d"] == [0]):
+            if any(st["d"] == [0] for st in b["stmts"]) or (b["term"]["k"] == "call" and is_forward(sc, b["term"])):
                 other_exits.append(b)
         bad_rm = sorted(rm & live)
         okc = bool(somes) and not other_exits and not bad_rm
